@@ -103,8 +103,8 @@ def rule_SH(run: Run) -> RuleResult:
         ok = ok and saw_on and saw_off
         res.add(f"labrea.cache._{kind}_cache_handler:tests the switch first and delegates to its disabled twin", ok, cm.relpath, fi.node.lineno,
                 why or f"{len(ps)} paths: switch on -> _disabled_{kind}_cache_handler(request), switch off -> backend", nec)
-        deco = [ast.unparse(d) for d in fi.node.decorator_list]
-        res.add(f"labrea.cache._{kind}_cache_handler:registered for {req}", deco == [f"{req}.handle"], cm.relpath, fi.node.lineno, f"{deco}", nec)
+        regd = astu.default_handler_registrations(repo).get(req, [])
+        res.add(f"labrea.cache._{kind}_cache_handler:registered for {req}", regd == [f"labrea.cache._{kind}_cache_handler"], cm.relpath, fi.node.lineno, f"default handlers of {req}: {regd}", nec)
     cd, cps = _paths_fn(run, "labrea.cache._cache_disabled")
     looked = set()
     on_opts = True
@@ -170,10 +170,20 @@ def rule_SH(run: Run) -> RuleResult:
         with_e = [p for p in ps if any(e.kind == "op" and isinstance(e.target, Child) and e.target.path == "effect" for e in p.events)]
         without = [p for p in ps if p not in with_e]
         def cond_of(p):
-            for c in p.conds:
-                if "_EFFECTS_DISABLED" in c[0]:
-                    neg = c[2].startswith("unop:Not(")
-                    return c[1] != neg  # True == switch is on (disabled)
+            """True when the path established that the switch is on (effects disabled), False when off:
+            the polarity of the path condition that tests the value the switch Option evaluated to."""
+            from .interp import Frame
+            for i, e in enumerate(p.events):
+                if e.kind in ("unfold", "op") and e.op == "evaluate" and isinstance(e.target, New) and e.target.cls.name == "Option" \
+                        and e.target.attrs.get("key") is not None and e.target.attrs["key"].key() == "Const('LABREA.EFFECTS.DISABLED')":
+                    vals = {x.target.key() for x in p.events[i + 1:] if x.kind == "return" and x.target is not None}
+                    vals.add(Val("evaluate", e.target).key())
+                    for c in p.conds[e.ncond:]:
+                        if c[2]:
+                            k, pol = Frame.norm_cond(c[2], c[1])
+                            if k in vals:
+                                return pol
+                    return None
             return None
         ok = bool(with_e) and bool(without) and all(cond_of(p) is False for p in with_e) and all(cond_of(p) is True for p in without)
         res.add(f"labrea.computation.Computation.{op}:effect skipped exactly when LABREA.EFFECTS.DISABLED", ok, cmod.relpath, co.methods[op].lineno,
@@ -238,14 +248,14 @@ def rule_L1(run: Run) -> RuleResult:
     # Dataset composes Logged at INFO level
     ds = repo.cls("Dataset")
     ok = False
-    for p in normal(analyse_method(Ctx(repo), ds, "_composed")):
-        t = p.ret
+    from .facts import dataset_compositions
+    for _dis, t in dataset_compositions(run):
         while isinstance(t, New):
             if t.cls.name == "Logged":
                 ok = t.attrs.get("level") is not None and t.attrs["level"].key() in ("ext<logging.INFO>", "attr:INFO(ext<logging>)")
                 lvl = t.attrs.get("level")
             t = t.attrs.get("evaluatable")
-    res.add("labrea.dataset.Dataset._composed:logs at logging.INFO", ok, ds.module.relpath, ds.methods["_composed"].lineno, "", nec)
+    res.add("labrea.dataset.Dataset._composed:logs at logging.INFO", ok, ds.module.relpath, ds.find_method("evaluate")[1].lineno, "", nec)
     return res
 
 
@@ -268,22 +278,78 @@ def rule_WR(run: Run) -> RuleResult:
         if isc is None:
             res.add(f"labrea.types.{an}.__init_subclass__:present", False, c.module.relpath, c.node.lineno, "missing", nec)
             continue
-        t = ast.unparse(isc)
-        inner = [n for n in isc.body[1].body if isinstance(n, ast.FunctionDef)] if len(isc.body) > 1 and isinstance(isc.body[1], ast.If) else []
-        ok_super = any(ast.unparse(s).startswith("super().__init_subclass__(") for s in isc.body)
-        guard = len(isc.body) > 1 and isinstance(isc.body[1], ast.If) and ast.unparse(isc.body[1].test) == f"not hasattr(cls.{op}, '__labrea_wrapper__')"
-        ok_inner = False
-        if inner:
-            w = inner[0]
-            ps_ = [a.arg for a in w.args.args]
-            rets = [ast.unparse(r.value) for r in ast.walk(w) if isinstance(r, ast.Return)]
-            want = f"{req}({ps_[0]}, {ps_[1]}).run()" if len(ps_) > 1 else ""
-            want2 = f"{req}({ps_[0]}, {ps_[1]} or {{}}).run()" if len(ps_) > 1 else ""
-            ok_inner = w.name == op and rets in ([want], [want2])
-        ok_install = f"cls.{SAVED[op]} = cls.{op}" in t and f"cls.{op} = {op}" in t and f"setattr({op}, '__labrea_wrapper__', True)" in t
-        order_ok = t.find(f"cls.{SAVED[op]} = cls.{op}") < t.find(f"cls.{op} = {op}")
+        ok_super = any(isinstance(c_.func, ast.Attribute) and c_.func.attr == "__init_subclass__"
+                       and ast.unparse(c_.func.value) == "super()" for c_ in astu.calls_in(isc))
+        # path facts: on every path that finds cls.<op> not yet wrapped the hook saves the
+        # implementation as cls.__labrea_<op>__, then installs a marked wrapper as cls.<op>;
+        # on paths that find it wrapped it stores nothing
+        from .facts import cond_pol
+        W = f"call:hasattr(attr:{op}(cls),Const('__labrea_wrapper__'))"
+        ps = analyse_function(Ctx(repo), c.module, isc)
+        guard = ok_inner = ok_install = order_ok = True
+        why = []
+        n_unwrapped = 0
+        for p in ps:
+            if p.status != "ret":
+                continue
+            pol = cond_pol(p.conds, W)
+            stores = [e for e in p.events if e.kind == "store" and len(e.args) == 2 and e.args[0].key() == "cls"]
+            sv = [i for i, e in enumerate(stores) if e.args[1].key() == Const(SAVED[op]).key()]
+            rp = [i for i, e in enumerate(stores) if e.args[1].key() == Const(op).key()]
+            if pol is True:
+                if sv or rp:
+                    guard = False
+                    why.append("re-wraps an already wrapped implementation")
+                continue
+            if pol is None and not (sv or rp):
+                continue
+            if pol is None:
+                guard = False
+                why.append(f"stores cls.{op} without testing the wrapper marker")
+                continue
+            n_unwrapped += 1
+            if len(sv) != 1 or len(rp) != 1:
+                ok_install = False
+                why.append(f"stores to cls.{SAVED[op]}: {len(sv)}, to cls.{op}: {len(rp)}")
+                continue
+            if stores[sv[0]].target is None or stores[sv[0]].target.key() != f"attr:{op}(cls)":
+                ok_install = False
+                why.append(f"cls.{SAVED[op]} = {stores[sv[0]].target.key()[:60] if stores[sv[0]].target is not None else None}")
+            if sv[0] > rp[0]:
+                order_ok = False
+                why.append("implementation saved after it was replaced")
+            wfn = stores[rp[0]].target
+            from .terms import Fn
+            if not isinstance(wfn, Fn) or not isinstance(wfn.node, ast.FunctionDef):
+                ok_inner = False
+                why.append(f"cls.{op} = {wfn.key()[:60] if wfn is not None else None} is not a local wrapper function")
+                continue
+            marks = [e for e in p.events if e.kind == "store" and len(e.args) == 2 and e.args[0] is wfn or
+                     (e.kind == "store" and len(e.args) == 2 and e.args[0].key() == wfn.key())]
+            if not any(e.args[1].key() == Const("__labrea_wrapper__").key() and e.target is not None and e.target.key() == Const(True).key() for e in marks):
+                ok_install = False
+                why.append("wrapper not marked with __labrea_wrapper__ = True")
+            wa = [x.arg for x in wfn.node.args.args]
+            if len(wa) < 2:
+                ok_inner = False
+                why.append("wrapper takes fewer than two parameters")
+                continue
+            wps = analyse_function(Ctx(repo), c.module, wfn.node)
+            for wp in wps:
+                if wp.status != "ret" or wp.ret is None:
+                    ok_inner = False
+                    why.append("wrapper path does not return")
+                    continue
+                k = wp.ret.key()
+                pre = f"call:run(new:{req}({wa[0]},"
+                if not (k == pre + wa[1] + "))" or (k.startswith(pre) and any(wa[1] in (c_[2] or "") for c_ in wp.conds))):
+                    ok_inner = False
+                    why.append(f"wrapper returns {k[:80]}")
+        if n_unwrapped == 0:
+            guard = False
+            why.append("no path installs the wrapper")
         res.add(f"labrea.types.{an}.__init_subclass__:replaces {op} by a wrapper issuing {req}(self, options).run()", ok_super and guard and ok_inner and ok_install and order_ok,
-                c.module.relpath, isc.lineno, f"super={ok_super} guard={guard} wrapper={ok_inner} install={ok_install} saved-before-replaced={order_ok}", nec)
+                c.module.relpath, isc.lineno, f"super={ok_super} guard={guard} wrapper={ok_inner} install={ok_install} saved-before-replaced={order_ok}" + ("; " + "; ".join(sorted(set(why))) if why else ""), nec)
     # default handlers call the saved implementation of the matching field
     for hn, (field, saved) in HANDLERS.items():
         fi = repo.func(f"labrea.types.{hn}")
@@ -294,6 +360,7 @@ def rule_WR(run: Run) -> RuleResult:
             rets = [ast.unparse(r.value) for r in ast.walk(fi.node) if isinstance(r, ast.Return) and r.value is not None]
             res.add(f"labrea.types.{hn}:returns the implementation's result unchanged", rets == [f"request.{field}.{saved}(request.options)"], fi.module.relpath, fi.node.lineno, f"{rets}", nec)
     # the saved implementations are called from nowhere else; the marker is set nowhere else
+    marker_users: Dict[str, tuple] = {}
     for m, cls, fn, q in iter_functions(repo):
         for c in astu.calls_in(fn):
             nm = astu.short_name(c)
@@ -303,7 +370,17 @@ def rule_WR(run: Run) -> RuleResult:
                     res.add(f"{q}:calls {nm} directly", False, m.relpath, c.lineno, ast.unparse(c)[:80] + " bypasses the request", nec)
         for n in astu.walk_no_nested(fn):
             if isinstance(n, ast.Constant) and n.value == "__labrea_wrapper__" and not q.endswith("__init_subclass__") and "__init_subclass__.<locals>" not in q:
-                res.add(f"{q}:touches the wrapper marker", False, m.relpath, n.lineno, "'__labrea_wrapper__' used outside the four __init_subclass__ hooks", nec)
+                marker_users.setdefault(q, (m.relpath, n.lineno))
+    # a helper that touches the marker is fine when only the four hooks call it (its effect was
+    # checked above, inlined into the hooks' paths)
+    for q, (rp_, ln_) in marker_users.items():
+        short = q.rsplit(".", 1)[-1]
+        callers = {q2 for m2, cls2, fn2, q2 in iter_functions(repo) for c2 in astu.calls_in(fn2) if astu.short_name(c2) == short and q2 != q}
+        refs = sum(1 for m2 in repo.modules.values() for n2 in ast.walk(m2.tree) if isinstance(n2, (ast.Name, ast.Attribute)) and (getattr(n2, "id", None) == short or getattr(n2, "attr", None) == short))
+        calls = sum(1 for m2, cls2, fn2, q2 in iter_functions(repo) for c2 in astu.calls_in(fn2) if astu.short_name(c2) == short)
+        ok = bool(callers) and all(x.endswith("__init_subclass__") and x.startswith("labrea.types.") for x in callers) and refs == calls
+        if not ok:
+            res.add(f"{q}:touches the wrapper marker", False, rp_, ln_, "'__labrea_wrapper__' used outside the four __init_subclass__ hooks (and helpers only they call)", nec)
     # every concrete node class defines the ops as plain defs; no other __init_subclass__ drops super()
     n_cls = 0
     for c in list(run.node_classes()) + [k for k in repo.subclasses_of("Effect")]:
@@ -334,11 +411,34 @@ def rule_RQ(run: Run) -> RuleResult:
     repo = run.repo
     nec = ("cache lookups/stores, log emission and option type checks must go through requests: a direct "
            "backend call is invisible to handlers and ignores the disabling switches (C18, C16)")
-    backend_ok = {"labrea.cache._set_cache_handler", "labrea.cache._get_cache_handler", "labrea.cache._exists_cache_handler", "labrea.cache.Cache.exists"}
+    # who may touch a cache backend directly: the default handlers of the three cache requests, private
+    # helpers that only those handlers (transitively) refer to, and Cache classes themselves
+    backend_ok = {"labrea.cache.Cache.exists"}
+    regs = astu.default_handler_registrations(repo)
+    for rq_ in ("CacheSetRequest", "CacheGetRequest", "CacheExistsRequest"):
+        backend_ok.update(regs.get(rq_, []))
+    if len(backend_ok) < 4:
+        raise AnalysisError("R-RQ: default handlers of CacheSetRequest/CacheGetRequest/CacheExistsRequest not found")
+    refs: Dict[str, Set[str]] = {}
+    for m_ in repo.modules.values():
+        fn_spans = [(fn_, q_) for mm, cls_, fn_, q_ in iter_functions(repo) if mm is m_]
+        for node in ast.walk(m_.tree):
+            if isinstance(node, ast.Name) and isinstance(node.ctx, ast.Load) and f"{m_.name}.{node.id}" in repo.functions:
+                owner = None
+                for fn_, q_ in fn_spans:
+                    if fn_.lineno <= node.lineno <= (fn_.end_lineno or fn_.lineno) and any(n is node for n in ast.walk(fn_)):
+                        owner = q_ if owner is None or len(q_) > len(owner) else owner
+                refs.setdefault(f"{m_.name}.{node.id}", set()).add(owner or "<module>")
+    changed = True
+    while changed:
+        changed = False
+        for q, users in refs.items():
+            if q not in backend_ok and users and all(u in backend_ok for u in users):
+                backend_ok.add(q)
+                changed = True
     handler_names = set()
-    for q, fi in repo.functions.items():
-        if any(isinstance(d, ast.Attribute) and d.attr == "handle" for d in fi.node.decorator_list):
-            handler_names.add(fi.name)
+    for qs_ in regs.values():
+        handler_names.update(q_.rsplit(".", 1)[-1] for q_ in qs_)
     n = 0
     for m, cls, fn, q in iter_functions(repo):
         if m.name.startswith("labrea.mypy"):
@@ -384,12 +484,9 @@ def rule_HD(run: Run) -> RuleResult:
     reqs = repo.subclasses_of("Request")
     if len(reqs) < 9:
         raise AnalysisError(f"only {len(reqs)} Request subclasses found (9 confirmed)")
+    regs = astu.default_handler_registrations(repo)
     for r in reqs:
-        hs = []
-        for q, fi in repo.functions.items():
-            for d in fi.node.decorator_list:
-                if isinstance(d, ast.Attribute) and d.attr == "handle" and repo.resolve_class(fi.module, d.value) is r:
-                    hs.append(q)
+        hs = regs.get(r.name, [])
         res.add(f"{r.qualname}:has a module-level default handler", len(hs) >= 1, r.module.relpath, r.node.lineno, f"{hs}", nec)
     rq = repo.cls("Request")
     h = rq.methods.get("handle")
@@ -441,6 +538,26 @@ def _member_filters(fn: ast.AST, selfname: str):
     return out
 
 
+def _member_enumerations(fn: ast.AST, selfname: str, classes, depth: int = 0):
+    """The member enumerations of fn, or — when fn delegates the enumeration to a helper
+    method of the dataset-class machinery — those of that helper."""
+    direct = _member_filters(fn, selfname)
+    if direct or depth >= 2:
+        return direct
+    out = []
+    for c in astu.calls_in(fn):
+        f0 = c.func
+        if isinstance(f0, ast.Attribute) and ast.unparse(f0.value) in (selfname, f"{selfname}.__class__", "cls", "self.__class__", "type(self)"):
+            for ci in classes:
+                h = ci.methods.get(f0.attr)
+                if h is not None and h is not fn:
+                    for en in _member_enumerations(h, astu.first_param(h), classes, depth + 1):
+                        if not any(en[0] == o[0] and ast.unparse(en[1]) == ast.unparse(o[1]) for o in out):
+                            out.append(en)      # the same helper reached twice is one enumeration
+                    break
+    return out
+
+
 def _truth_table(formula: ast.expr, atoms: List[str]):
     import itertools as _it
     rows = []
@@ -485,11 +602,11 @@ def rule_MF(run: Run) -> RuleResult:
         fn = meta.methods.get(op)
         if fn is None:
             raise AnalysisError(f"_DatasetClassMeta.{op} not found")
-        forms[f"_DatasetClassMeta.{op}"] = (_member_filters(fn, astu.first_param(fn)), fn.lineno, astu.first_param(fn))
+        forms[f"_DatasetClassMeta.{op}"] = (_member_enumerations(fn, astu.first_param(fn), (meta, mix)), fn.lineno, astu.first_param(fn))
     init = mix.methods.get("__init__")
     if init is None:
         raise AnalysisError("_DatasetClassMixin.__init__ not found")
-    forms["_DatasetClassMixin.__init__"] = (_member_filters(init, "self"), init.lineno, "self")
+    forms["_DatasetClassMixin.__init__"] = (_member_enumerations(init, "self", (mix, meta)), init.lineno, "self")
     atoms: List[str] = []
     for k, (flt, ln, sn) in forms.items():
         for src, formula in flt:
@@ -500,12 +617,39 @@ def rule_MF(run: Run) -> RuleResult:
             res.add(f"labrea.datasetclass.{k}:one member enumeration over dir(...)", False, f, ln, f"{len(flt)} enumerations", nec)
             continue
         src, formula = flt[0]
-        src_n = "CLASS" if src in (sn, f"{sn}.__class__", "self.__class__", "cls") else src
+        src_n = "CLASS" if src in (sn, f"{sn}.__class__", "self.__class__", "cls", "type(self)") else src
         key = (src_n, _truth_table(formula, atoms))
         if ref is None:
             ref = key
         res.add(f"labrea.datasetclass.{k}:same member source and predicate as its siblings", key == ref, f, ln,
                 f"source {src}; member processed iff {ast.unparse(formula)} (compared as a truth table over {atoms})", nec)
+    # a per-class memo written by an operation must not be read through the MRO: a derived dataset class would
+    # inherit the base's list and its own members would be evaluated but never keyed / validated / explained
+    memo_bad = []
+    reach = astu.reachable_self_methods(meta, ["validate", "keys", "explain", "evaluate"])
+    for mn, mfn in reach.items():
+        sn = astu.first_param(mfn)
+        for x in ast.walk(mfn):
+            attr = None
+            if isinstance(x, ast.Assign) and isinstance(x.targets[0], ast.Attribute) and isinstance(x.targets[0].value, ast.Name) and x.targets[0].value.id == sn:
+                attr = x.targets[0].attr
+            elif isinstance(x, ast.Call) and astu.short_name(x) == "setattr" and len(x.args) == 3 and isinstance(x.args[0], ast.Name) and x.args[0].id == sn \
+                    and isinstance(x.args[1], ast.Constant) and isinstance(x.args[1].value, str):
+                attr = x.args[1].value
+            if attr is None:
+                continue
+            for rn, rfn in reach.items():
+                rs_ = astu.first_param(rfn)
+                for y in ast.walk(rfn):
+                    # the presence test of the memo: hasattr / getattr-with-default follow the MRO (cls.__dict__ / vars(cls) do not)
+                    via_mro = isinstance(y, ast.Call) and isinstance(y.args[0] if y.args else None, ast.Name) and y.args[0].id == rs_ \
+                        and len(y.args) >= 2 and isinstance(y.args[1], ast.Constant) and y.args[1].value == attr \
+                        and ((astu.short_name(y) == "hasattr") or (astu.short_name(y) == "getattr" and len(y.args) == 3))
+                    if via_mro:
+                        memo_bad.append((mn, attr, rn, y.lineno))
+    res.add("labrea.datasetclass._DatasetClassMeta:no per-class memo that derived classes inherit", not memo_bad, f, memo_bad[0][3] if memo_bad else meta.node.lineno,
+            "no operation stores state on the class" if not memo_bad else
+            f"{memo_bad[0][0]}() stores cls.{memo_bad[0][1]} and {memo_bad[0][2]}() tests for it through the MRO (hasattr / getattr with a default): a derived class inherits the base's memo", nec)
     want_atoms = {"isinstance(MEMBER, Evaluatable)", "NAME.startswith('__')"}
     res.add("labrea.datasetclass:members are the Evaluatable attributes that are not dunder names", set(atoms) == want_atoms, f, 1,
             f"predicate atoms {sorted(atoms)}", nec)
@@ -520,7 +664,14 @@ def rule_MF(run: Run) -> RuleResult:
     ok = ev is not None and [ast.unparse(r.value) for r in ast.walk(ev) if isinstance(r, ast.Return)] == [f"{astu.first_param(ev)}({astu.param_names(ev)[0]})"]
     res.add("labrea.datasetclass._DatasetClassMeta.evaluate:instantiates with the options", ok, f, ev.lineno if ev else 0, "", nec)
     sets = [c for c in astu.calls_in(init) if astu.short_name(c) == "setattr"]
-    ok = len(sets) == 1 and ast.unparse(sets[0]) == "setattr(self, key, val.evaluate(options))"
+    amap_i = astu.single_assign_map(init)
+    ok = len(sets) == 1 and len(sets[0].args) == 3 and ast.unparse(sets[0].args[0]) == "self"
+    if ok:
+        v = astu.expand_locals(sets[0].args[2], amap_i, keep=frozenset(astu.param_names(init)))
+        # the member's value is requested through its evaluate() (calling a dataset class instantiates
+        # it directly, bypassing the request)
+        ok = isinstance(v, ast.Call) and isinstance(v.func, ast.Attribute) and v.func.attr == "evaluate" and len(v.args) == 1 \
+            and astu.norm_opts(v.args[0]) == astu.param_names(init)[0]
     res.add("labrea.datasetclass._DatasetClassMixin.__init__:every evaluatable member set to its evaluation", ok, f, init.lineno, f"{[ast.unparse(c) for c in sets]}", nec)
     mi = meta.methods.get("__init__")
     ok = mi is not None and "setattr(cls, key, Value(val))" in ast.unparse(mi) and "if not isinstance(val, Evaluatable):" in ast.unparse(mi)
@@ -580,6 +731,74 @@ def rule_PL(run: Run) -> RuleResult:
     for c in run.node_classes():
         bad = [a for a in ("__slots__",) if a in c.class_assigns]
         res.add(f"{c.qualname}:default instance pickling applies", not bad, c.module.relpath, c.node.lineno, "no __slots__" if not bad else f"defines {bad}", nec)
+    return res
+
+
+# ------------------------------------------------------------------ R-PK
+def rule_PK(run: Run) -> RuleResult:
+    """Identity tests only against objects whose identity survives a pickle round trip."""
+    res = RuleResult("R-PK")
+    repo = run.repo
+    nec = ("`x is G` with G an ordinary module-level instance is False for the copy of G that unpickling creates: an object that "
+           "held G before pickling takes the other branch afterwards (C20)")
+
+    def by_reference(mod, value: ast.expr) -> Optional[str]:
+        """Why the object bound by ``name = value`` keeps its identity across pickling, or None."""
+        if isinstance(value, ast.Constant) and (value.value is None or isinstance(value.value, bool)):
+            return "None/True/False"
+        if isinstance(value, ast.Attribute) and isinstance(value.value, ast.Name):
+            ci = repo.resolve_class(mod, value.value)
+            if ci is not None and any(b in ("Enum", "IntEnum", "Flag") or b.endswith(".Enum") for k in ci.mro() for b in k.external_bases()):
+                return f"member of the Enum {ci.name} (pickled by name)"
+        if isinstance(value, ast.Call):
+            fn = ast.unparse(value.func)
+            if fn in ("object", "threading.Lock", "threading.RLock"):
+                return None
+            ci = repo.resolve_class(mod, value.func) if isinstance(value.func, (ast.Name, ast.Attribute)) else None
+            if ci is not None:
+                if any("__reduce__" in k.methods or "__reduce_ex__" in k.methods for k in ci.mro()):
+                    red = next(k.methods.get("__reduce__") or k.methods.get("__reduce_ex__") for k in ci.mro() if "__reduce__" in k.methods or "__reduce_ex__" in k.methods)
+                    rets = [r.value for r in ast.walk(red) if isinstance(r, ast.Return) and r.value is not None]
+                    if rets and all(isinstance(r, ast.Constant) and isinstance(r.value, str) for r in rets):
+                        return f"{ci.name}.__reduce__ returns a global name"
+                return None
+        return None
+
+    n = n_missing = 0
+    for m, cls, fn, q in iter_functions(repo):
+        if m.name.startswith("labrea.mypy"):
+            continue
+        for x in astu.walk_no_nested(fn):
+            if not (isinstance(x, ast.Compare) and len(x.ops) == 1 and isinstance(x.ops[0], (ast.Is, ast.IsNot))):
+                continue
+            for side in (x.left, x.comparators[0]):
+                if not isinstance(side, ast.Name):
+                    continue
+                r = repo.resolve_name(m, side.id)
+                if not r or r[0] != "var":
+                    continue
+                # follow `from .x import NAME` to the defining assignment
+                val = r[1]
+                dm = r[2] if len(r) > 2 else m
+                why = by_reference(dm, val)
+                n += 1
+                if side.id == "MISSING":
+                    n_missing += 1
+                    continue      # reported once below
+                res.add(f"{q}:identity test against module-level {side.id}", why is not None, m.relpath, x.lineno,
+                        f"{ast.unparse(x)[:70]} — {side.id} = {ast.unparse(val)[:50]}: " + (why or "an ordinary instance, pickled by value: the test is False for its unpickled copy"), nec)
+    mm = repo.modules.get("labrea._missing")
+    ok = False
+    d = "labrea/_missing.py not found"
+    if mm is not None:
+        r = mm.names.get("MISSING")
+        why = by_reference(mm, r[1]) if r and r[0] == "var" else None
+        ok = why is not None
+        d = f"MISSING = {ast.unparse(r[1]) if r else '?'}: " + (why or "not pickled by reference")
+    res.add("labrea._missing.MISSING:identity survives pickling", ok, mm.relpath if mm else "", 1, d + f"; {n_missing} `is MISSING` tests rely on it", nec)
+    res.count("identity_tests", n)
+    if n_missing < 20:
+        raise AnalysisError(f"only {n_missing} identity tests against MISSING found (40+ confirmed by hand)")
     return res
 
 
@@ -710,6 +929,81 @@ def rule_GS(run: Run) -> RuleResult:
             continue
         res.add(f"{m.name}:no unregistered module-level mutable state", m.relpath not in dirty, m.relpath, 1,
                 "no function of this module mutates module-level state outside the guarded shared tables", nec)
+    return res
+
+
+# ------------------------------------------------------------------ R-IS
+_OBJ_MUTATORS = {"append", "appendleft", "extend", "add", "update", "setdefault", "pop", "popitem", "clear", "remove", "discard", "insert", "__setitem__", "__delitem__"}
+
+
+def _options_dependent(t, depth: int = 0) -> bool:
+    """The term is (or closes over) something computed from the options of this call."""
+    from .terms import Bound, Fn, Seq
+    from .interp import Coll
+    if t is None or depth > 8:
+        return False
+    if isinstance(t, Val):
+        return True
+    if isinstance(t, Sym):
+        if t.head in ("options",) and not t.args:
+            return True
+        return any(_options_dependent(a, depth + 1) for a in t.args)
+    if isinstance(t, Fn):
+        env = list((t.frame or {}).values()) + list(t.bound.values()) + list(t.pos)
+        names = {n_.id for n_ in ast.walk(t.node) if isinstance(n_, ast.Name)}
+        for k_, v_ in (t.frame or {}).items():
+            if k_ in names and v_ is not t and _options_dependent(v_, depth + 1):
+                return True
+        return any(_options_dependent(v_, depth + 1) for v_ in list(t.bound.values()) + list(t.pos))
+    if isinstance(t, New):
+        return any(_options_dependent(v_, depth + 1) for v_ in t.attrs.values())
+    if isinstance(t, Coll):
+        return _options_dependent(t.elem, depth + 1) or _options_dependent(t.keyterm, depth + 1)
+    if isinstance(t, Seq):
+        return any(_options_dependent(v_, depth + 1) for v_ in t.items)
+    if isinstance(t, Bound):
+        return _options_dependent(t.target, depth + 1)
+    return False
+
+
+def rule_IS(run: Run) -> RuleResult:
+    """No operation records an options-dependent result on the expression object (or a child)."""
+    res = RuleResult("R-IS")
+    nec = ("expression objects are shared (datasets are module-level objects used with many option dictionaries, from many "
+           "threads): a result computed from one call's options and kept on the object is served to later calls with other options")
+    n_paths = 0
+    seen = set()
+    for cls in run.node_classes():
+        dirty = []
+        for op in ("evaluate", "validate", "keys", "explain"):
+            for p in run.paths(cls, op):
+                n_paths += 1
+                for e in p.events:
+                    obj = None
+                    val = None
+                    what = ""
+                    if e.kind == "store" and len(e.args) == 2 and isinstance(e.args[0], Child):
+                        obj, val, what = e.args[0], e.target, f"{e.text} = …"
+                    elif e.kind == "call" and e.text in _OBJ_MUTATORS and isinstance(e.target, Child) and getattr(e.target, "kind", "other") == "other" \
+                            and not e.target.path.startswith(("*", "<")) and "(" not in e.target.path:
+                        obj, val, what = e.target, (e.args[-1] if e.args else None), f"self.{e.target.path}.{e.text}(…)"
+                    if obj is None or not _options_dependent(val):
+                        continue
+                    if e.kind == "store" and (e.op or "").split(".")[-1] in ("__init__", "__new__", "__setstate__", "__post_init__"):
+                        continue        # the constructor of an object created by this call fills in that object
+                    k = (cls.qualname, op, e.file, e.line)
+                    if k in seen:
+                        continue
+                    seen.add(k)
+                    dirty.append((op, e, what, val))
+        owner, fn = cls.find_method("evaluate")
+        if not dirty:
+            res.add(f"{cls.qualname}:operations keep no options-dependent state on the object", True, owner.module.relpath, fn.lineno,
+                    "no store into self (or a child) of a value computed from the call's options", nec)
+        for op, e, what, val in dirty:
+            res.add(f"{cls.qualname}.{op}:keeps an options-dependent result on the object ({what[:50]})", False, e.file, e.line,
+                    f"{what} in {e.op or op} stores {val.key()[:80] if val is not None else '?'}, which was computed from this call's options", nec)
+    res.count("paths", n_paths)
     return res
 
 
